@@ -25,7 +25,8 @@ type pair struct {
 
 	markerSeq int
 	nonceBase string
-	shrinkIno uint64 // inode of the leader's log when the pending AOFSHRINK was issued (0 = none pending)
+	shrinkIno uint64   // inode of the leader's log when the pending AOFSHRINK was issued (0 = none pending)
+	shrinkOld *os.File // that file, kept open so that its inode number cannot be reused by the new log
 }
 
 var nonceCounter atomic.Int64
@@ -174,6 +175,9 @@ func startPair() (*pair, error) {
 }
 
 func (p *pair) close() {
+	if p.shrinkOld != nil {
+		p.shrinkOld.Close()
+	}
 	if p.lc != nil {
 		p.lc.Close()
 	}
@@ -390,6 +394,10 @@ func (p *pair) waitShrink(budget time.Duration) error {
 		if ino := aofInode(p.L.AOFPath()); ino != 0 && ino != p.shrinkIno {
 			if _, err := os.Stat(p.L.AOFPath() + "-shrink"); os.IsNotExist(err) {
 				p.shrinkIno = 0
+				if p.shrinkOld != nil {
+					p.shrinkOld.Close()
+					p.shrinkOld = nil
+				}
 				if _, err := p.lc.Do("PING"); err != nil {
 					return err
 				}
@@ -846,7 +854,10 @@ func runCase(cs *caseSpec, ro runOpts) (out *outcome) {
 			p.px.SetLink(linkProfile{Delay: time.Duration(st.Ms) * time.Millisecond, Chunk: st.Chunk, Gap: time.Duration(st.GapMs) * time.Millisecond})
 		case stShrink:
 			if p.shrinkIno == 0 {
-				p.shrinkIno = aofInode(p.L.AOFPath())
+				if f, err := os.Open(p.L.AOFPath()); err == nil {
+					p.shrinkOld = f
+					p.shrinkIno = aofInode(p.L.AOFPath())
+				}
 			}
 			if v, err := p.lc.Do("AOFSHRINK"); err != nil || v.IsErr() {
 				out.inconclusive = fmt.Sprintf("%s: %v %s", phase, err, v.String())
